@@ -97,3 +97,38 @@ Definition requests_auth (c : call) : bool :=
 (* calls that silently withdraw an earlier requirement *)
 Definition withdraws (c : call) : bool :=
   match c with Authentication false => true | LightWeight true => true | _ => false end.
+
+(* ---------------------------------------------------------------- the user store over time *)
+(* Permission changes (what PATCH /admin/users/<name> does: WriteUser with a new permission list) and
+   requests interleaved.  The gate must decide every request against the permissions the user holds
+   NOW: store = association list, latest write first. *)
+Definition store := list (N * list N).
+Fixpoint perms_of (s : store) (u : N) : list N :=
+  match s with [] => [] | (v, ps) :: t => if v =? u then ps else perms_of t u end.
+
+Definition ROOT : N := 4.
+Definition LOGON : N := 5.
+
+(* the session Authenticate produces for user u presenting a correct password (token = false:
+   ValidatePassword also wants ego.logon or ego.root) or a cached token (token = true: permissions
+   resolved with GetPermissions) *)
+Definition cred_now (s : store) (u : N) (token : bool) : cred :=
+  let ps := perms_of s u in
+  let au := if token then true else memN LOGON ps || memN ROOT ps in
+  mkCred false au (au && memN ROOT ps) true (if token then ps else []) (fun p => memN p ps).
+
+Inductive sop := SetPerms (u : N) (ps : list N) | Request (f : flags) (u : N) (token : bool).
+
+Fixpoint store_after (s : store) (ops : list sop) : store :=
+  match ops with
+  | [] => s
+  | SetPerms u ps :: t => store_after ((u, ps) :: s) t
+  | Request _ _ _ :: t => store_after s t
+  end.
+
+Fixpoint run_store (s : store) (ops : list sop) : list response :=
+  match ops with
+  | [] => []
+  | SetPerms u ps :: t => run_store ((u, ps) :: s) t
+  | Request f u tk :: t => serve f (cred_now s u tk) (fun _ => false) true true None :: run_store s t
+  end.
